@@ -66,22 +66,33 @@ Definition do_place (cfg : sorted_cfg) (p : place) (x : hnd) (l : list hnd) : li
   | PAppend => l ++ [x]
   end.
 
-Inductive op := AppendAttr | AppendFilter | SetFormatter | AppendSink | AppendPipeline
+(* [SetFormatterAgain] = setFormatter called with the formatter OBJECT of the most recent
+   setFormatter call (re-applying a configuration); it behaves as [SetFormatter] if there was none *)
+Inductive op := AppendAttr | AppendFilter | SetFormatter | SetFormatterAgain | AppendSink | AppendPipeline
               | Clear (c : cls) | ClearAll.
-(* id = index of the call in the history *)
+(* id = identity of the handler object: the index of the call that created it *)
 Definition step_cfg (cfg : sorted_cfg) (l : list hnd) (id : nat) (o : op) : list hnd :=
   match o with
   | AppendAttr => do_place cfg (p_attr cfg) (Attr, id) l
   | AppendFilter => do_place cfg (p_filter cfg) (Filt, id) l
-  | SetFormatter => do_place cfg (p_formatter cfg) (Fmt, id) (if fmt_clears_first cfg then clear Fmt l else l)
+  | SetFormatter | SetFormatterAgain =>
+      do_place cfg (p_formatter cfg) (Fmt, id) (if fmt_clears_first cfg then clear Fmt l else l)
   | AppendSink => do_place cfg (p_sink cfg) (Snk, id) l
   | AppendPipeline => do_place cfg (p_pipeline cfg) (Pipe, id) l
   | Clear c => clear c l
   | ClearAll => []
   end.
-Fixpoint run_from (cfg : sorted_cfg) (l : list hnd) (id : nat) (ops : list op) : list hnd :=
-  match ops with [] => l | o :: t => run_from cfg (step_cfg cfg l id o) (S id) t end.
-Definition run_cfg (cfg : sorted_cfg) (ops : list op) : list hnd := run_from cfg [] 0 ops.
+(* the identity a call inserts: a fresh one (the call's index), except for SetFormatterAgain *)
+Definition hid (lastf : option nat) (id : nat) (o : op) : nat :=
+  match o, lastf with SetFormatterAgain, Some f => f | _, _ => id end.
+Definition next_lastf (lastf : option nat) (id : nat) (o : op) : option nat :=
+  match o with SetFormatter | SetFormatterAgain => Some (hid lastf id o) | _ => lastf end.
+Fixpoint run_from (cfg : sorted_cfg) (l : list hnd) (lastf : option nat) (id : nat) (ops : list op) : list hnd :=
+  match ops with
+  | [] => l
+  | o :: t => run_from cfg (step_cfg cfg l (hid lastf id o) o) (next_lastf lastf id o) (S id) t
+  end.
+Definition run_cfg (cfg : sorted_cfg) (ops : list op) : list hnd := run_from cfg [] None 0 ops.
 
 (* ---- specification: ranked stable insertion ---- *)
 Fixpoint insert_sorted (x : hnd) (l : list hnd) : list hnd :=
@@ -90,11 +101,12 @@ Fixpoint insert_sorted (x : hnd) (l : list hnd) : list hnd :=
   | y :: t => if Nat.ltb (rank (fst x)) (rank (fst y)) then x :: l else y :: insert_sorted x t
   end.
 Definition op_class (o : op) : option cls :=
-  match o with AppendAttr => Some Attr | AppendFilter => Some Filt | SetFormatter => Some Fmt
+  match o with AppendAttr => Some Attr | AppendFilter => Some Filt
+             | SetFormatter | SetFormatterAgain => Some Fmt
              | AppendSink => Some Snk | AppendPipeline => Some Pipe | _ => None end.
 Definition step_ref (l : list hnd) (id : nat) (o : op) : list hnd :=
   match o with
-  | SetFormatter => insert_sorted (Fmt, id) (clear Fmt l)
+  | SetFormatter | SetFormatterAgain => insert_sorted (Fmt, id) (clear Fmt l)
   | Clear c => clear c l
   | ClearAll => []
   | _ => match op_class o with Some c => insert_sorted (c, id) l | None => l end
@@ -104,14 +116,17 @@ Definition log_step (c : cls) (lg : list hnd) (id : nat) (o : op) : list hnd :=
   match o with
   | ClearAll => []
   | Clear c' => if cls_eqb c c' then [] else lg
-  | SetFormatter => if cls_eqb c Fmt then [(Fmt, id)] else lg
+  | SetFormatter | SetFormatterAgain => if cls_eqb c Fmt then [(Fmt, id)] else lg
   | _ => match op_class o with
          | Some c' => if cls_eqb c c' then lg ++ [(c, id)] else lg
          | None => lg end
   end.
-Fixpoint log_from (c : cls) (lg : list hnd) (id : nat) (ops : list op) : list hnd :=
-  match ops with [] => lg | o :: t => log_from c (log_step c lg id o) (S id) t end.
-Definition class_log (c : cls) (ops : list op) : list hnd := log_from c [] 0 ops.
+Fixpoint log_from (c : cls) (lg : list hnd) (lastf : option nat) (id : nat) (ops : list op) : list hnd :=
+  match ops with
+  | [] => lg
+  | o :: t => log_from c (log_step c lg (hid lastf id o) o) (next_lastf lastf id o) (S id) t
+  end.
+Definition class_log (c : cls) (ops : list op) : list hnd := log_from c [] None 0 ops.
 Definition spec_list (ops : list op) : list hnd :=
   class_log Attr ops ++ class_log Filt ops ++ class_log Fmt ops ++ class_log Snk ops ++ class_log Pipe ops.
 
